@@ -110,6 +110,13 @@ static void t_newchild (void *a) {
 	observe (NEWC);
 	vrt_count ("newchild");
 }
+static void t_busy_parent (void *a) {
+	int i = (int) (long) a, k;
+	for (k = 0; k < 4; k++) {
+		if (vrt_rand (2)) { nsync_note x = nsync_note_new (note[i], nsync_time_no_deadline); observe (i); nsync_note_free (x); }
+		else observe (i);
+	}
+}
 static nsync_time mk_dl (int i) {
 	int k = (int) vrt_rand (4);
 	dl_of[i] = k == 0 ? 1500 : k == 1 ? -500 : -1;      /* future, past, none, none */
@@ -117,12 +124,12 @@ static nsync_time mk_dl (int i) {
 }
 
 int main (void) {
-	int fam = vrt_opt ("FAMILY", (int) vrt_rand (3));
+	int fam = vrt_opt ("FAMILY", (int) vrt_rand (4));
 	int i;
 	nsync_time d[NN], e;
 	/* build P -> C -> G, P -> S and check expiry = min over the creation path */
 	for (i = 0; i < 4; i++) {
-		d[i] = (fam == 2 && i == P) ? vrt_abs (800) : (fam == 1 ? nsync_time_no_deadline : mk_dl (i));
+		d[i] = (fam == 2 && i == P) ? vrt_abs (800) : ((fam == 1 || fam == 3) ? nsync_time_no_deadline : mk_dl (i));
 		note[i] = x_new (parent_of[i], d[i]);
 		e = d[i];
 		if (parent_of[i] >= 0) {
@@ -145,6 +152,12 @@ int main (void) {
 		vrt_thread (vrt_rand (2) ? "pG" : "wG", vrt_rand (2) ? t_poll : t_wait, (void *) (long) G);
 		if (vrt_rand (2)) vrt_thread ("new", t_newchild, (void *) (long) P);
 		if (vrt_rand (2)) vrt_thread ("pS", t_poll, (void *) (long) S);
+	} else if (fam == 3) {
+		/* two notifiers of one child while the parent's lock is kept busy by a third thread (new children / polls of the parent) */
+		vrt_thread ("nC1", t_notify, (void *) (long) C);
+		vrt_thread ("nC2", t_notify, (void *) (long) C);
+		vrt_thread ("busyP", t_busy_parent, (void *) (long) P);
+		if (vrt_rand (2)) vrt_thread ("pC", t_poll, (void *) (long) C);
 	} else if (fam == 1) {
 		vrt_thread ("nC1", t_notify, (void *) (long) C);
 		vrt_thread ("nC2", t_notify, (void *) (long) C);
